@@ -479,6 +479,27 @@ def _canon_bound(expr, alias):
     return e
 
 
+def _cell_stmt(st):
+    """(buffer, index text, operator, right-hand side) of `b[<index, brackets may nest>] op ...`, else None"""
+    m = re.match(r'^(%s)\s*\[' % _ID, st)
+    if not m:
+        return None
+    depth, k = 0, m.end() - 1
+    for k in range(m.end() - 1, len(st)):
+        if st[k] == '[':
+            depth += 1
+        elif st[k] == ']':
+            depth -= 1
+            if depth == 0:
+                break
+    else:
+        return None
+    m2 = re.match(r'^\s*(\+=|-=|\*=|/=|//=|%=|\|=|&=|\^=|=)(?!=)\s*(.*)$', st[k + 1:])
+    if not m2:
+        return None
+    return m.group(1), st[m.end():k], m2.group(1), m2.group(2)
+
+
 def _scan_pyx_function(rel, fname, stmts):
     """accumulating buffers of one function.  STRUCTURAL: what counts is the block structure, not spelling -
     `for v in range(n)` / `prange(n, ...)` / `v = 0; while v < n: ...; v = v + 1` are all a full loop over n,
@@ -501,7 +522,17 @@ def _scan_pyx_function(rel, fname, stmts):
     alias = {k: _canon_bound(v, {}) for k, v in alias.items()}
 
     accums, state, seen = [], {}, set()
-    stack = []          # blocks: {'indent', 'kind': loop|cond|transparent, 'var', 'bound'}
+    view_of = {}        # local name -> the buffer it is an alias / view of (`acc = out`, `&out[0]`, out.reshape(..))
+    by_buf = {}
+
+    def root(nm):
+        for _ in range(8):
+            if nm not in view_of:
+                break
+            nm = view_of[nm]
+        return nm
+    _RANK = {'serial': 0, 'ownedAt0': 1, 'ownedElsewhere': 2, 'racy': 3}
+    stack = []          # blocks: {'indent', 'kind': loop|cond|transparent, 'var', 'bound', 'parallel'}
     n = len(stmts)
     for k, (no, indent, st) in enumerate(stmts):
         while stack and stack[-1]['indent'] >= indent:
@@ -512,7 +543,7 @@ def _scan_pyx_function(rel, fname, stmts):
             m = re.match(r'^for (%s) in p?range\s*\((.*)\)\s*:$' % _ID, st)
             if m:
                 pos = [x for x in _split_args(m.group(2)) if not re.match(r'^\w+\s*=', x)]
-                blk.update(kind='loop', var=m.group(1),
+                blk.update(kind='loop', var=m.group(1), parallel=bool(re.match(r'^for %s in prange\b' % _ID, st)),
                            bound=_canon_bound(pos[0], alias) if len(pos) == 1 else None)
             elif re.match(r'^with\s+(nogil|gil)\s*:$', st):
                 blk['kind'] = 'transparent'
@@ -553,6 +584,16 @@ def _scan_pyx_function(rel, fname, stmts):
         m = re.match(r'^(?:cdef\s+.*?[\]\w\*]\s+)?(%s)\s*=(?!=)\s*(.+)$' % _ID, st)
         if m and not re.match(r'^(assert|return)\b', st):
             b, rhs = m.group(1), m.group(2)
+            am = re.match(r'^(?:<[^>]+>\s*)?&?\s*(?:np\.(?:asarray|ascontiguousarray|asanyarray|ravel|reshape)\s*\(\s*)?'
+                          r'(%s)\s*(?:\[[^\]]*\])?\s*(?:\.(?:reshape|ravel|view|squeeze|base|T)\b[^;]*)?\)?\s*(?:,.*\))?$' % _ID,
+                          rhs)
+            if am and am.group(1) != b and not re.match(r'^(len|int|float|long|abs|max|min|sizeof)$', am.group(1)) \
+                    and not re.match(r'^[\d.]+$', rhs):
+                # an alias or view: it has the state of what it views (a caller-supplied buffer is NOT
+                # initialised by the routine unless the routine zero-fills it)
+                view_of[b] = am.group(1)
+                state.pop(b, None)
+                continue
             if not conditional:
                 if re.search(r'\bnp\.(empty_like|empty|ndarray)\s*\(', rhs):
                     state[b] = ('uninitialised', None)
@@ -567,21 +608,34 @@ def _scan_pyx_function(rel, fname, stmts):
         m = re.match(r'^(%s)\s*(?:\[\s*(?::|\.\.\.)\s*\]\s*=\s*0(?:\.0*)?|\.fill\s*\(\s*0(?:\.0*)?\s*\))$' % _ID, st)
         if m:
             if not conditional:
-                state[m.group(1)] = ('zeroLoop', 'whole')
+                state[root(m.group(1))] = ('zeroLoop', 'whole')
             continue
         # ---- cell statements ----
-        m = re.match(r'^(%s)\s*\[([^\]]*)\]\s*(\+=|-=|\*=|/=|=)(?!=)\s*(.*)$' % _ID, st)
-        if not m:
+        cell = _cell_stmt(st)
+        if cell is None:
             continue
-        b, idx, op, rhs = m.group(1), m.group(2), m.group(3), m.group(4)
-        is_acc = op != '=' or re.search(r'(?<![\w.])%s\s*\[\s*%s\s*\]' % (re.escape(b), re.escape(idx.strip())), rhs)
+        b0, idx, op, rhs = cell
+        b = root(b0)
+        is_acc = op != '=' or re.search(r'(?<![\w.])%s\s*\[\s*%s\s*\]' % (re.escape(b0), re.escape(idx.strip())), rhs)
         if not is_acc:
             if re.fullmatch(r'0(?:\.0*)?', rhs.strip()) and not conditional:
                 ext = extent(idx)
                 if ext is not None and b not in seen:
                     state[b] = ('zeroLoop', ext)
             continue
+        # ownership: inside a parallel region every prange variable must be a component of the accumulated
+        # index (one writer per cell) - at position 0 for the kernels that have a model
+        pvars = [blk['var'] for blk in stack if blk['kind'] == 'loop' and blk.get('parallel')]
+        comps = [c.strip() for c in _split_args(idx)]
+        if not pvars:
+            owner = 'serial'
+        elif all(v in comps for v in pvars):
+            owner = 'ownedAt0' if comps and comps[0] in pvars else 'ownedElsewhere'
+        else:
+            owner = 'racy'
         if b in seen:
+            if _RANK[owner] > _RANK[by_buf[b]['owner']]:
+                by_buf[b]['owner'] = owner
             continue
         seen.add(b)
         kind, ext0 = state.get(b, ('uninitialised', None))
@@ -589,7 +643,8 @@ def _scan_pyx_function(rel, fname, stmts):
             # conditions around the accumulation do not matter; its index space must be the zeroed one
             if extent(idx) != ext0:
                 kind = 'uninitialised'
-        accums.append({'file': rel, 'line': no, 'func': fname, 'buffer': b, 'init': kind})
+        by_buf[b] = {'file': rel, 'line': no, 'func': fname, 'buffer': b, 'init': kind, 'owner': owner}
+        accums.append(by_buf[b])
     return accums
 
 
@@ -601,7 +656,7 @@ def _scan_pyx(rel, text):
         stmts = _pyx_logical_lines(text)
     except Exception as e:  # noqa
         return [], [{'file': rel, 'line': 0, 'func': 'unrecognised: %s' % type(e).__name__, 'buffer': '?',
-                     'init': 'uninitialised'}], []
+                     'init': 'uninitialised', 'owner': 'racy'}], []
     funcs, cur = [], None
     for no, indent, st in stmts:
         m = _PYX_DEF.match(st) if indent == 0 else None
@@ -632,7 +687,7 @@ def _scan_pyx(rel, text):
         except Exception as e:  # noqa
             accums.append({'file': rel, 'line': f['stmts'][0][0] if f['stmts'] else 0,
                            'func': 'unrecognised: %s in %s' % (type(e).__name__, f['name']), 'buffer': '?',
-                           'init': 'uninitialised'})
+                           'init': 'uninitialised', 'owner': 'racy'})
     return allocs, accums, wheres
 
 
@@ -713,8 +768,11 @@ def translate(repo_dir, gen_dir):
     out.append('inductive AccumInit | zeroLoop | zerosAlloc | computedBinding | uninitialised')
     out.append('  deriving Repr, DecidableEq')
     out.append('')
+    out.append('inductive Owner | serial | ownedAt0 | ownedElsewhere | racy')
+    out.append('  deriving Repr, DecidableEq')
+    out.append('')
     out.append('structure AccumSite where')
-    out.append('  file : String\n  line : Nat\n  func : String\n  buffer : String\n  init : AccumInit')
+    out.append('  file : String\n  line : Nat\n  func : String\n  buffer : String\n  init : AccumInit\n  owner : Owner')
     out.append('  deriving Repr')
     out.append('')
 
@@ -736,9 +794,9 @@ def translate(repo_dir, gen_dir):
             _lean_str(s['file']), s['line'], _lean_str(s['func']), _lean_str(s['call']),
             _lean_str(s['target']), s['init']) for s in allocs])
     lst('accumSites', 'AccumSite',
-        ['{ file := %s, line := %d, func := %s, buffer := %s, init := .%s }' % (
-            _lean_str(s['file']), s['line'], _lean_str(s['func']), _lean_str(s['buffer']), s['init'])
-         for s in accums])
+        ['{ file := %s, line := %d, func := %s, buffer := %s, init := .%s, owner := .%s }' % (
+            _lean_str(s['file']), s['line'], _lean_str(s['func']), _lean_str(s['buffer']), s['init'],
+            s.get('owner', 'racy')) for s in accums])
     out.append('end Ens.Generated.UfuncSites')
     text = '\n'.join(out) + '\n'
     os.makedirs(gen_dir, exist_ok=True)
@@ -2970,7 +3028,8 @@ def _source_obligation_targets():
     bad = [s for s in t.get('ufunc_sites', []) if not s['hasOut']]
     bad += [s for s in t.get('alloc_sites', []) if s['init'] == 'uninitialised'
             and (s['file'], s['func'], s['target']) not in REVIEWED_ALLOCS]
-    bad += [s for s in t.get('accum_sites', []) if s['init'] == 'uninitialised']
+    bad += [s for s in t.get('accum_sites', []) if s['init'] == 'uninitialised'
+            or s.get('owner') in ('racy', 'ownedElsewhere')]
     targets = []
     for s in bad:
         for r in REACHES.get(s['func'], []):
